@@ -190,6 +190,10 @@ func (g *Grammar) eval(n *Node, s *Sentence) string {
 	case ActCall:
 		args := make([]string, len(a.Action.Args))
 		for i, r := range a.Action.Args {
+			if r.Const != "" {
+				args[i] = "S" + strconv.Quote(r.Val)
+				continue
+			}
 			args[i] = vals[r.Index]
 		}
 		v := RenderNode(a.ID, a.Action.Ctx, args)
